@@ -361,6 +361,14 @@ def nsInsert (r : Bytes × Nat × Bytes) : List (Bytes × Nat × Bytes) → List
 inductive ImportOutcome where | inserted | upgraded | noChange
 deriving Repr, DecidableEq
 
+/-- `Capability::merge` on `(namespace id, kind, key bytes)`: refused for another document's
+capability; the only change is the upgrade from read (2) to write (1). `none` = `NamespaceMismatch`,
+otherwise whether the capability changed and what it is afterwards. -/
+def capMerge (self other : Bytes × Nat × Bytes) : Option (Bool × (Bytes × Nat × Bytes)) :=
+  if other.1 ≠ self.1 then none
+  else if self.2.1 = 2 ∧ other.2.1 = 1 then some (true, other)
+  else some (false, self)
+
 /-- `import_namespace` + `Capability::merge`; `kind` 1 = write, 2 = read. The namespace id is
 supplied with the capability (for a write capability it is the public key of the secret). -/
 def importNamespace (t : T) (ns : Bytes) (kind : Nat) (raw : Bytes) : T × ImportOutcome :=
